@@ -231,10 +231,12 @@ func classify(sig, site string, c *Case) string {
 	if strings.HasPrefix(sig, "retry-crashed/") {
 		return sig // classified by the place where the retrying process died
 	}
-	// known input class (C19 findings): actively persisted values with a remove or an update in the transaction
+	// known input class: the subject transaction touches a store with actively persisted values (C19 / C12 findings:
+	// values are written before commit, Remove tracks nothing so remove-only transactions skip phase 1, Get-then-Update
+	// overwrites committed blobs in place, rollback in logger state 99 returns early and keeps a created store)
 	for _, op := range spec.Ops {
-		if c.Program.Stores[op.Store].ActivelyP && (op.Kind == "rem" || op.Kind == "upd") {
-			return sig[:cut(sig)] + "/actively-persisted-remove-or-update"
+		if c.Program.Stores[op.Store].ActivelyP {
+			return sig[:cut(sig)] + "/actively-persisted-values"
 		}
 	}
 	if strings.HasPrefix(sig, "orphan-value-blob/") || strings.HasPrefix(sig, "retry-") {
